@@ -51,6 +51,16 @@ pub fn run(rt: &tokio::runtime::Runtime, dir: &std::path::Path, c: &FileCase, ch
             let m = f.metadata().unwrap();
             (f, m)
         }
+        3 => {
+            // a sparse file: real content in the first 2 MiB (all that 16 polls can reach), then a hole
+            write_file(&path, c.size.min(2 << 20));
+            let f = std::fs::OpenOptions::new().write(true).open(&path).unwrap();
+            f.set_len(c.size).unwrap();
+            drop(f);
+            let f = std::fs::File::open(&path).unwrap();
+            let m = f.metadata().unwrap();
+            (f, m)
+        }
         _ => {
             write_file(&path, c.size);
             let f = std::fs::File::open(&path).unwrap();
@@ -285,6 +295,12 @@ pub fn gen_c18(rng: &mut Rng, thorough: bool, emit: &mut dyn FnMut(FileCase)) {
                 }
             }
         }
+    }
+    // a sparse file longer than 4 GiB: ranges whose length is, or passes through, a multiple of 2^32
+    // (a 32-bit read size would be 0 there); only the first polls are made
+    let big: u64 = (1u64 << 32) + 131079;
+    for (a, e) in [(0u64, 1u64 << 32), (0, (1 << 32) + 5), (5, (1 << 32) + 5), (70000, (1 << 32) + 70000), (0, big), (65536, (1u64 << 32) + 65536 + 65536), (1, 1 << 32)] {
+        emit(FileCase { kind: 3, size: big, a, e, truncs: vec![], class: format!("G:sparse size={} range={}..{}", big, a, e) });
     }
     emit(FileCase { kind: 1, size: 0, a: 0, e: 0, truncs: vec![], class: "N:directory".into() });
     emit(FileCase { kind: 2, size: 0, a: 0, e: 0, truncs: vec![], class: "N:dev-null".into() });
